@@ -129,6 +129,35 @@ theorem getViaVal_rep_checked (cfg : Cfg) (hc : cfg.getChecksKey = true) (hash :
     | none => rfl
     | some k' => simp only [get_rep hash t m r k']; cases m.get k' <;> rfl
 
+/-- **`Table_Get`, the whole function, for ANY key argument** (source since fix bc940bb: `getChecksKey`): an object outside the
+    table, the stored key object of a record, the value object of a record, an address inside an empty record.  The answer is
+    what the map binds to the key value the argument stands for (`KeyArg.denote`), or the exception its cast raises. -/
+theorem getArg_rep_checked (cfg : Cfg) (hc : cfg.getChecksKey = true) (hash : κ → Nat) (asKey : ν → Option κ) (t : Tab κ ν)
+    (m : Spec κ ν) (r : Rep hash t m) (a : KeyArg κ) :
+    getArg cfg hash asKey t a = .ok (match a.denote asKey t with
+      | none => .badOp
+      | some (.error e) => .raised e
+      | some (.ok k) => match Spec.get m k with | none => .raised .KeyError | some v => .val v) := by
+  cases a with
+  | obj k => simp only [getArg, KeyArg.denote]; exact get_rep hash t m r k
+  | inSlot i part =>
+    by_cases h : i < t.n
+    · simp only [getArg, KeyArg.denote, dif_pos h, hc, if_true, getInSlotChecked, Fin.getElem_fin]
+      cases hs : t.slots[i] with
+      | none => cases part <;> rfl
+      | some e =>
+        cases part with
+        | key =>
+          have hg : Spec.get m e.key = some e.val := by
+            rw [spec_get_some m r.nodup]; exact (r.has e.key e.val).mp ⟨e, ⟨i, h, hs⟩, rfl, rfl⟩
+          simp only [hg]
+        | val =>
+          simp only []
+          cases hk : asKey e.val with
+          | none => rfl
+          | some k' => simp only [get_rep hash t m r k']
+    · simp only [getArg, KeyArg.denote, dif_neg h]
+
 /-- `Table_Mem` -/
 theorem mem_rep (hash : κ → Nat) (t : Tab κ ν) (m : Spec κ ν) (r : Rep hash t m) (k : κ) :
     mem hash t k = .ok (.bool (Spec.get m k).isSome) := by
